@@ -88,7 +88,7 @@ def collect_typevars(args: t.Any) -> t.Tuple[t.Union[t.TypeVar, ParamSpec], ...]
 
 
 def type_union(types: t.Iterable[type]) -> type:
-    return functools.reduce(operator.or_, types)
+    return t.Union[tuple(types)]  # type: ignore
 
 
 def flatten_union_args(types: t.Iterable[T]) -> t.Iterator[T]:
